@@ -1,6 +1,27 @@
 #include "slu_ddefs.h"
 #include "vf_prelude.h"
 #include "vf_replaced.h"
+/* ASSUMED models of the two allocators of SRC/dmemory.c (same statement as a private @@external contract; written as
+ * loop-free bodies because under `@@instrument legacy` a block that a REPLACED contract creates with __CPROVER_is_fresh
+ * is not in the frame of the enforced function - measured, see contracts/dgstrf.spec):
+ *   doubleCalloc(n): a new ledger block of exactly n doubles, every one 0.0 (calloc), or no return (the library ABORTs);
+ *   doubleMalloc(n): the same with ARBITRARY contents (only reached by the seeded mutant calloc_to_malloc). */
+double *doubleCalloc(size_t n)
+{
+    double *p = (double *)calloc(n, sizeof(double));
+    if (!p) vf_abort("doubleCalloc");
+    g_live++;
+    return p;
+}
+
+double *doubleMalloc(size_t n)
+{
+    double *p = (double *)malloc(n * sizeof(double));
+    if (!p) vf_abort("doubleMalloc");
+    g_live++;
+    return p;
+}
+
 /* all argument objects are created by the contract's preconditions (__CPROVER_is_fresh) */
 void h_sp_dtrsv(void)
 {
